@@ -245,6 +245,14 @@ def rule_sinks(ctx):
                 got = (sorted(last(p) for p in pat_paths(a["pat"])), render(ext[0]["args"][0]).replace(" ", ""))
         ok = got is not None and got[0] == ["Assert", "Declaration", "IfThenElse", "Return"] and got[1] == "stmt.variables_read().map(|var|var.name().clone())"
         ctx.check(R, "sinks/reads-of-declarations-returns-asserts-conditions", ok, "statement kinds and reads: %s (all classes: locals, signals and components)" % (got,), site(SE, ms[0]))
+        # ... for every such statement: no earlier or guarded arm takes some of them away
+        stolen = []
+        for a in ms[0]["arms"]:
+            kinds_ = {last(p) for p in pat_paths(a["pat"])} & {"Assert", "Declaration", "IfThenElse", "Return"}
+            ext = [e for e in method_calls(a["body"], "extend") if render(strip(e["recv"])) == "sinks"]
+            if kinds_ and (a.get("guard") is not None or not ext or (conditions_to(a["body"], ext[0]) or [])):
+                stolen.append("%s%s" % (sorted(kinds_), " if " + render(a["guard"])[:40] if a.get("guard") is not None else ""))
+        ctx.check(R, "sinks/no-exception-among-those-statements", not stolen, "arms that take declarations / returns / asserts / conditions without adding their reads to the sinks: %s" % stolen, site(SE, ms[0]))
         cs = conditions_to(fn["body"], ms[0]) or []
         ctx.check(R, "sinks/every-statement", [c[0] for c in cs] == ["loop", "loop"], facts_str(cs), site(SE, ms[0]))
     okv = False
